@@ -157,8 +157,8 @@ func (g *gen) inboundWire(from string) M {
 	if g.p(0.05) {
 		src = "NOBLE"
 	}
-	nonce := g.r.Intn(40)
-	if g.p(0.12) { // the same low bits as a small nonce, 2^32 or 2^63 higher
+	nonce := g.r.Intn(50) // (47 = 0x2f, the key separator)
+	if g.p(0.12) {        // the same low bits as a small nonce, 2^32 or 2^63 higher
 		nonce = []int{1000, 2000}[g.r.Intn(2)] + g.r.Intn(8)
 	}
 	if g.p(0.25) {
@@ -251,7 +251,7 @@ func (g *gen) attEntry() M {
 	case x < 14:
 		return M{"key": g.pick(keyNames), "sp": "hex"}
 	case x < 17:
-		return M{"key": g.pick(keyNames), "sp": g.pick([]string{"0x", "UP", "0X"})}
+		return M{"key": g.pick(keyNames), "sp": g.pick([]string{"0x", "UP", "0X", "odd", "0xodd"})}
 	case x < 18:
 		return M{"key": g.pick([]string{"junk1", "junk2"}), "sp": "hex"}
 	default:
